@@ -129,6 +129,30 @@ def run(rep, drv):
 				bad('jrp', '; '.join(errs) or 'model differs', case, oracle=bool(errs))
 		except Exception as e:
 			bad('jrp', 'raised %s' % err_enum(e), case)
+	# corpus: demand in lots -- pmf dicts whose keys are not consecutive integers (the zero-probability points are simply absent)
+	for qs, hh, bb in (([F(1, 4), 0, 0, 0, 0, F(3, 8), 0, 0, 0, 0, F(1, 4), 0, 0, 0, 0, F(1, 8)], F(1), F(4)), ([F(1, 2), 0, 0, F(1, 4), 0, 0, 0, F(1, 4)], F(2), F(9)),
+					   ([0, 0, F(1, 4), 0, F(1, 2), 0, 0, 0, 0, F(1, 4)], F(1, 2), F(3)), ([F(1, 8), F(1, 8), 0, 0, 0, 0, F(3, 4)], F(3), F(1))):
+		pmf = {d_: float(v_) for d_, v_ in enumerate(qs) if v_ > 0}
+		ys = list(range(-2, len(qs) + 3))
+		case = {'variant': 'discrete', 'pmf': {str(k_): v_ for k_, v_ in pmf.items()}, 'h': fr(hh), 'b': fr(bb)}
+		rep.case('newsvendor', case); rep.count('discrete:lot-demand-corpus')
+		try:
+			mo = drv.call('nvdiscrete', pmf=frs([F(v_) for v_ in qs]), h=fr(hh), b=fr(bb), ys=ys)
+			costs = [unfr(v) for v in mo['costs']]
+			S, c = call(nvm.newsvendor_discrete, float(hh), float(bb), demand_pmf=dict(pmf))
+			errs = []
+			rep.exact_cmp += 1
+			near = lambda a_, b_: abs(float(a_) - float(b_)) <= 1e-9 * max(1.0, abs(float(b_)))
+			if not near(c, costs[ys.index(int(S))]) or float(min(costs)) < float(c) - 1e-9 * max(1.0, abs(float(c))):
+				errs.append('S*=%s reported cost %r; model cost of that level %s, model optimum %s' % (S, c, costs[ys.index(int(S))], min(costs)))
+			for y in ys:
+				_, ca = call(nvm.newsvendor_discrete, float(hh), float(bb), demand_pmf=dict(pmf), base_stock_level=y)
+				if not near(ca, costs[ys.index(y)]):
+					errs.append('evaluation at y=%d: python %r, defining expectation %s' % (y, ca, costs[ys.index(y)])); break
+			if errs:
+				bad('newsvendor', 'discrete (lot demand): ' + '; '.join(errs[:3]), case)
+		except Exception as e:
+			bad('newsvendor', 'discrete (lot demand) raised %s' % err_enum(e), case)
 	# newsvendor variants
 	for k in range(N):
 		h = rng.choice([0.18, 1, 3]); p = rng.choice([0.7, 4, 20]); mean = rng.choice([8, 50, 120]); sd = rng.choice([2, 8, 20]); L = rng.choice([0, 0, 1, 3])
@@ -171,6 +195,9 @@ def run(rep, drv):
 				hh, bb = F(rng.randint(1, 8), 2), F(rng.randint(1, 40), 2)
 				items = [(d, float(v)) for d, v in enumerate(q)]; rng.shuffle(items)
 				pmf = dict(items)
+				if k % 2 == 0 and any(v_ == 0 for v_ in pmf.values()) and any(v_ > 0 for v_ in pmf.values()):
+					# the same distribution with its zero-probability points LEFT OUT of the dict (a support with gaps, e.g. demand in lots)
+					pmf = {d_: v_ for d_, v_ in pmf.items() if v_ > 0}; rep.count('discrete:pmf-dict-with-gaps')
 				S, c = call(nvm.newsvendor_discrete, float(hh), float(bb), demand_pmf=pmf)
 				ys = list(range(-2, D + 4))
 				mo = drv.call('nvdiscrete', pmf=frs(q), h=fr(hh), b=fr(bb), ys=ys)
